@@ -91,6 +91,9 @@ type Obligation struct {
 }
 
 type FuncTr struct {
+	lastCallRes *Val
+	lastCallSig *types.Signature
+	outerGhost map[string]*Term
 	w   *World
 	fn  *ssa.Function
 	c   *Contract
@@ -504,7 +507,45 @@ func (ft *FuncTr) specIdent(e *SpecEnv, name string) (SV, bool) {
 			return SV{Addr: v.T, Ty: ty}, true
 		}
 	}
+	// variables of the enclosing function that this closure does not capture: the contract may still name them;
+	// inside the closure they are arbitrary values of their type (sound: the contract is proved for every value),
+	// at use sites in the enclosing function they denote that function's variable
+	if par := ft.fn.Parent(); par != nil {
+		if ty := outerVarType(par, name); ty != nil {
+			if ft.outerGhost == nil {
+				ft.outerGhost = map[string]*Term{}
+			}
+			t, ok := ft.outerGhost[name]
+			if !ok {
+				t = ft.d.Fresh("outer_"+name, ft.w.sortOf(ft.d, ty))
+				ft.outerGhost[name] = t
+			}
+			return SV{T: t, Ty: ty}, true
+		}
+	}
 	return SV{}, false
+}
+
+// outerVarType finds the type of the parameter or named local `name` of fn (nil when there is none or it is ambiguous).
+func outerVarType(fn *ssa.Function, name string) types.Type {
+	for _, p := range fn.Params {
+		if p.Name() == name {
+			return p.Type()
+		}
+	}
+	var found types.Type
+	for _, b := range fn.Blocks {
+		for _, in := range b.Instrs {
+			if al, ok := in.(*ssa.Alloc); ok && al.Comment == name {
+				ty := al.Type().(*types.Pointer).Elem()
+				if found != nil && !types.Identical(found, ty) {
+					return nil
+				}
+				found = ty
+			}
+		}
+	}
+	return found
 }
 
 func (ft *FuncTr) iterVisited(st *State, r *ssa.Range) *Term {
@@ -943,6 +984,8 @@ func (ft *FuncTr) block(b *ssa.BasicBlock) error {
 			}
 			if !am.whole && len(am.locs) == 0 {
 				ft.h.noteFreshFrame(before, after, preNext)
+			} else if !am.whole {
+				ft.h.noteFreshFrameCond(before, after, ft.h.nextID(ft.init), ft.locsFreshCond(am.locs))
 			}
 		}
 		for _, n := range sortedKeys(l.modGhost) {
@@ -1435,4 +1478,20 @@ func (ft *FuncTr) leak() {
 	for k := range ft.allocID {
 		delete(ft.allocID, k)
 	}
+}
+
+// locsFreshCond: every written location lies in an object allocated since function entry; a frame with such
+// locations keeps all cells of objects allocated before function entry.
+func (ft *FuncTr) locsFreshCond(locs []Loc) *Term {
+	initNext := ft.h.nextID(ft.init)
+	var cs []*Term
+	for _, l := range locs {
+		switch l.kind {
+		case LocExact:
+			cs = append(cs, And(Not(IsNil(l.t)), Le(initNext, PObjID(l.t))))
+		default:
+			cs = append(cs, Or(IsNil(SlcArr(l.t)), Le(initNext, PObjID(SlcArr(l.t)))))
+		}
+	}
+	return And(cs...)
 }
